@@ -151,3 +151,19 @@ fn f12_c17_covers_of_a_euclidean_symbol_are_not_rejected_by_the_invariant_table(
         }
     }
 }
+
+// f13 (C12): a presentation with a trivial generator (relator of length one) lost a class of subgroups. Found by a seeding sub-agent on the
+// unmodified tree, confirmed against a brute-force count of transitive permutation representations up to conjugacy.
+#[test]
+fn f13_c12_relator_of_length_one_does_not_lose_subgroup_classes() {
+    use rust_dsymbols::fpgroups::cosets::coset_tables;
+    use rust_dsymbols::fpgroups::free_words::FreeWord;
+    let count = |nr: usize, rels: &[&[isize]], k: usize| {
+        let rels: Vec<FreeWord> = rels.iter().map(|r| FreeWord::new(r.iter().cloned())).collect();
+        coset_tables(nr, &rels, k).count()
+    };
+    assert_eq!(count(2, &[&[1, 2, -1, -2]], 4), 15);                 // Z^2: sigma(1) + .. + sigma(4)
+    assert_eq!(count(3, &[&[1, 2, -1, -2], &[3]], 4), 15);            // 14 on the pinned tree
+    assert_eq!(count(3, &[&[2, 3, -2, -3], &[1]], 4), 15);            // 14 on the pinned tree
+    assert_eq!(count(3, &[&[1, 2, -1, 2], &[3]], 4), count(2, &[&[1, 2, -1, 2]], 4));   // Klein bottle group: 10 vs 11 on the pinned tree
+}
